@@ -25,6 +25,7 @@ LEVEL_TEXT = ("Theorems about a hand-written executable Lean model (Model/IoOrde
               "put_data->get_data_into round trip of every field get_data_into writes, and MuJoCo's efc_address/efc_id invariants of the export after mjw.forward.  Two defects found by this check "
               "were repaired in /repo: 'fix: get_data_into used the -1 efc_address of a contact without constraint rows as a row index' (e4120b4) and 'fix: put_model silently ignored "
               "opt.disableactuator (actuatorgroupdisable)' (7358257); their triggers run first as regression cases.")
+TECHNIQUE = ("Lean 4 theorems over a hand-written executable model of put_data/get_data_into's index logic (Model/IoOrder.lean) tied to the real host code by a line-protocol correspondence (Driver/ProtoIo.lean) on every run; AST scan of put_model's rejection tables; oracle: MjModel/MjData round trip")
 LEVEL_NOTE = ("C31_partial: put_model (feature rejection, field equality) and the plain per-world field copies are decided by the oracle only; the Lean model is hand-written (tie = correspondence run, "
               "not regeneration). Still present in /repo (known findings): efc-id-not-remapped, extra-contacts-exported. Trusted: Lean kernel, the correspondence run.")
 ASSUMPTIONS = ["float32 storage: round-trip comparisons use rtol 2e-6", "fields whose layout legitimately differs (qLD block layout, island bookkeeping, energy without the energy flag) are listed in SKIP_FIELDS and counted"]
